@@ -228,7 +228,7 @@ def run(ctx):
   ctx.floor("DEF-local", "functions with locals in vtt/reader.py + tokenizer.py", nf, 8)
   ne = lint.enum_alias_dispatch(ctx, ms, rule="LINT-d")
   ctx.floor("LINT-d", "enums in the WebVTT reader and tokenizer", ne, 2)
-  src = nul.NullSources(regex_methods=True, iter_funcs={"_none_terminated"}, fields={"ruby_rbc", "ruby_rtc"})
+  src = nul.NullSources(call_names={"vtt_timestamp_to_secs"}, regex_methods=True, iter_funcs={"_none_terminated"}, fields={"ruby_rbc", "ruby_rtc"})
   nt = nul.check_sources(ctx, fs, src, rule="NUL")
   ctx.floor("NUL", "dereferences of tabled nullable values", nt, 8)
   np_ = nul.check_parent_walk(ctx, [ix.cls("ttconv.vtt.reader:_TextCueParser")])
